@@ -14,6 +14,6 @@ C03 — a successful compile never writes a file that differs from what was aske
   what `write_anm` narrows or drops without a diagnostic), on the model of `Model/FilesAnm.lean`.
 * `Props/C03Ecl10.lean`: stack ECL (TH10 and later) - the 16-byte instruction header (`read_write10`,
   `write10_err_iff_not_fits`, `readInstrs10_writeInstrs10`) on `Model/InstrIO10.lean`, and the container
-  (`string_list_roundtrip`, `ecl10_read_write`, `ecl10_write_err_iff`, `ecl10_write_ok_no_narrowing`, the witness
-  `ecl10_nul_in_name_unreadable` / `ecl10_read_write_full_false`) on `Model/FilesEcl10.lean`.
+  (`string_list_roundtrip`, `ecl10_read_write`, `ecl10_write_err_iff`, `ecl10_write_ok_no_narrowing`, and since dcd07d9
+  `ecl10_nul_in_name_rejected` / `ecl10_write_ok_nul_free` / `ecl10_read_write_full`) on `Model/FilesEcl10.lean`.
 -/
